@@ -38,7 +38,7 @@ func init() {
 		Rule: "cases: (1) every defined function x arity 0-3 x argument kind {nil, bool, ints, floats, strings, arrays, maps, $-path hit/miss, @-path, nested call, quoted path, path into $.asm} on a fixed root; " +
 			"(2) random typed plans (statements setting keys under $.asm from nested numeric/string/boolean/list expressions of depth <= 3, cond, each with inner plans (also bodies that keep a scratch member under @ for some elements only, and set targets built from the data with at/root), get/getall/set/setall/del/delall, wrong-kind and wrong-arity arguments) on random roots; " +
 			"each plan is executed by asm.NewPlan(...).Execute, again on the same Plan value, and after rebuilding from Plan.String() (SEN text), Plan.Simplify() and from JSON text; checked: no escaped panic, no recovered Go runtime fault in the returned error, equal outcome (error flag and whole root) of all runs, outcome equal to the reference semantics where the descriptions define it, $.src unchanged when the plan contains no mutating function. " +
-			"non-trivial: a plan with at least one function call; distinct by plan and root text",
+			"also (3) sort/reverse (documented to return a copy) for list lengths 0-4 followed by a write into every slot of the result, and (4) every function with integers at and near the int64 limits in every argument position (executed directly, repeatedly and through Simplify; the text routes would only show F-C02-maxint). non-trivial: a plan with at least one function call; distinct by plan and root text",
 		Assumptions: []string{
 			"the reference (ref/asmref) is written from asm.FnDocs(); where a description is silent (mixed-kind comparison, sum of numbers and strings, ties in sort, string of containers, cond tests that are not boolean, formats) the outcome is don't-care and only totality, determinism and rebuild equivalence are checked",
 			"get/getall/set/setall/del/delall are defined by their descriptions as jp.First/Get/SetOne/Set/DelOne/Del; the reference calls those (C05/C13 pin them)",
